@@ -35,6 +35,13 @@ FAMILIES = {
     'callq_0_1': ('expr', ['kall(x, __FST_t)', 'kall(__FST_t)', 'kall(__FST_t, zz=kz)']),
     'callq_1_1': ('expr', ['kall(x, __FST_t)', 'kall(__FST_t)', 'kall(__FST_t, zz=kz)']),
     'callq_2_1': ('expr', ['kall(x, __FST_t)', 'kall(__FST_t)', 'kall(__FST_t, zz=kz)']),
+    # identifier slots: a captured identifier STRING placed into identifier positions of the template (attribute name,
+    # keyword name, parameter name, Name id; for patterns: keyword attribute name, rest / star / as names), mixed with
+    # literal identifiers in front of and behind the slot
+    'attr_ident': ('expr', ['zq.__FST_n', 'fq(__FST_n=901)', 'fq(kq=900, __FST_n=901, mq=902)', '__FST_n', 'fq(__FST_n)', '(lambda aq, __FST_n: aq)',
+                            'zq.__FST_n.wq', '[__FST_n for __FST_n in zq]', '(lambda *, __FST_n=903: None)']),
+    'mclass_ident': ('pattern', ['Pt(kq=900, __FST_n=vq)', 'Pt(__FST_n=vq, kq=900)', 'Pt(aq, bq=901, __FST_n=902)', '{"tk": 901, **__FST_n}',
+                                 '[901, *__FST_n]', '(900 as __FST_n)', 'Pt(kq=900, mq=901, __FST_n=vq, zq=903)']),
     'assign_value': ('stmt', ['with __FST_val as handle:\n    pass', 'with __FST_val as handle:\n    pass', 'use(__FST_val)', 'other = [__FST_val, 1]']),   # (a BARE 'with __FST_x:' slot splats sequences by documented design: not used)
 }
 
@@ -63,6 +70,10 @@ def build_pattern(fam):
         return m.MAssign
     if fam == 'unwrap_list':
         return m.MList(elts=[m.M(e=m.MList)])
+    if fam == 'attr_ident':
+        return m.MAttribute(attr=m.M(n=...), ctx=ast.Load)
+    if fam == 'mclass_ident':
+        return m.MMatchClass(kwd_attrs=[m.M(n=...)])
     if fam.startswith('callq_'):
         k1, k2 = int(fam[6]), int(fam[8])
         return m.MCall(_args=[...] * k1 + [m.MQSTAR(t=...)] + [...] * k2)
@@ -77,6 +88,10 @@ def ref_matches(fam, n, plain=False):
         return False
     if fam == 'unwrap_list':
         return isinstance(n, ast.List) and len(n.elts) == 1 and isinstance(n.elts[0], ast.List)
+    if fam == 'attr_ident':
+        return isinstance(n, ast.Attribute) and isinstance(n.ctx, ast.Load)
+    if fam == 'mclass_ident':
+        return isinstance(n, ast.MatchClass) and len(n.kwd_attrs) == 1
     if fam.startswith('callq_'):
         return isinstance(n, ast.Call) and len(n.args) + len(n.keywords) >= int(fam[6]) + int(fam[8])
     if fam == 'assign_value':
@@ -175,10 +190,23 @@ class Ref:
     def fill(self, node):
         if self.kind == 'expr':
             t = ast.parse(self.tmpl, mode='eval').body
+        elif self.kind == 'pattern':
+            t = O.harness_ast('pattern', self.tmpl)
         else:
             t = ast.parse(self.tmpl).body[0]
         for x in ast.walk(t):
             x._tmpl = True
+        if self.fam in ('attr_ident', 'mclass_ident'):
+            # identifier slots: every identifier position of the template that holds the tag gets the captured string
+            ident = node.attr if self.fam == 'attr_ident' else node.kwd_attrs[0]
+            for x in ast.walk(t):
+                for f in x._fields:
+                    v = getattr(x, f, None)
+                    if v == '__FST_n':
+                        setattr(x, f, ident)
+                    elif isinstance(v, list) and '__FST_n' in v:
+                        setattr(x, f, [ident if y == '__FST_n' else y for y in v])
+            return t
         used = [False]
 
         def slot_value(name, ph):
@@ -393,6 +421,12 @@ class SubRun:
                 'form': rng.choice(['src', 'src', 'fst']),
                 'loop': rng.choice([False, False, 2, 3]) if fam == 'unwrap_list' or rng.random() < 0.25 else False,
             }
+            if fam in ('attr_ident', 'mclass_ident'):
+                req['loop'] = False
+                fx = (['iq = ia.ib.ic', 'id(ie.ig, ih=ij.ik)', 'im.io = ip.ir'] if fam == 'attr_ident' else
+                      ['match ms:\n    case Point(xx=px):\n        pass\n    case Qt(aa, bb=(cc)):\n        pass', 'match mt:\n    case [Rt(kk=701), {"fk": St(ll=mm)}]:\n        pass'])
+                rng.shuffle(fx)
+                program = program.rstrip('\n') + '\n' + '\n'.join(fx[:rng.choice([1, 2, 3])]) + '\n'
             if fam.startswith('callq_'):
                 req['on'] = 'enter'  # the reference orders arguments by their original positions: parents before children
                 req['loop'] = False
@@ -447,7 +481,7 @@ class SubRun:
                     burst()
 
                 tmpl = req['tmpl']
-                repl = tmpl if req['form'] == 'src' else FST(tmpl, 'expr' if kind == 'expr' else 'stmt')
+                repl = tmpl if req['form'] == 'src' else FST(tmpl, {'expr': 'expr', 'pattern': 'pattern'}.get(kind, 'stmt'))
                 try:
                     _, n_unique, n_total = root.subn(build_pattern(fam), repl, req['nested'], count=req['count'],
                                                       on=req['on'], back=req['back'], loop=req.get('loop', False), callback=cb, callback_after=cb_after)
@@ -537,7 +571,7 @@ class SubRun:
                 def c(lno, boff):
                     return len(blines[lno - 1][:boff].decode())
                 ext = [((sl, c(sl, sc)), (el, c(el, ec))) for sl, sc, el, ec in ref.matched_extents]
-                if FAMILIES[req['fam']][0] == 'expr':
+                if FAMILIES[req['fam']][0] in ('expr', 'pattern'):
                     # the matched node's own grouping parentheses (and comments inside them) belong to its extent
                     from .props_c04 import Pre
                     try:
